@@ -733,9 +733,22 @@ def _htn_items():
     def timed_goal(w):
         w[1].add_timed_goal(TimeInterval(GlobalStartTiming(1), GlobalEndTiming(), True, False), w[0].expression_manager.FluentExp(w[3]))
 
+    def shadowed_parameter_name(w):
+        # the LAST action declares x with a subtype; the method's x (supertype) is used in a
+        # method precondition: a parameter expression outside any action body
+        env, pb, T = w[0], w[1], w[2]
+        S = env.type_manager.UserType("S", T)
+        at = up.model.Fluent("at", env.type_manager.BoolType(), [up.model.Parameter("o", T, env)], env)
+        pb.add_fluent(at, default_initial_value=True)
+        last = up.model.InstantaneousAction("zlast", OrderedDict(x=S), env)
+        last.add_effect(w[3], False)
+        pb.add_action(last)
+        w[6].add_precondition(env.expression_manager.FluentExp(at, (env.expression_manager.ParameterExp(w[6].parameter("x")),)))
+
     return OrderedDict((f.__name__, f) for f in (
         ordered, strictly_before, root_ordered, temporal, temporal_root, precondition, constraint, tn_variable,
-        tn_constraint, auto_ident, subtask_of_task, second_method, durative_subtask, timed_goal))
+        tn_constraint, auto_ident, subtask_of_task, second_method, durative_subtask, timed_goal,
+        shadowed_parameter_name))
 
 
 def _sched_items():
